@@ -464,6 +464,111 @@ def r03i(rep, F):
     rep.require_count('R03i', 'setProblemDefinition overrides', n, 4)
 
 
+PUSHES = ('push', 'push_back', 'push_front', 'emplace', 'emplace_back', 'emplace_front', 'insert')
+POPS = ('pop', 'pop_front', 'pop_back')
+
+
+def r03j(rep, F, planner_fns):
+    rep.rule('R03j', 'pruning conserves nodes: a function that empties the nearest-neighbour structure of a raw-pointer tree (NN->clear(), '
+                     'outside clear / freeMemory / setup) holds the nodes only in its local work-lists; every local container of node '
+                     'pointers that is pushed to must be drained after (or around) its last push: by a loop `while (!C.empty())` that '
+                     'pops at the top level of its body, or by a traversal of C whose body unconditionally hands each element on (re-adds '
+                     'it to a nearest-neighbour structure, frees / deletes it, or pushes it to another container).  A node left in a '
+                     'work-list is neither in the tree index nor freed: clear() and the destructor, which walk the index, leak it')
+    n = 0
+    for f in planner_fns:
+        short = f.name.split('::')[-1]
+        if short in ('clear', 'freeMemory', 'setup', 'clearQuery') or short.startswith('~'):
+            continue
+        if not any((c.get('callee') or '').endswith('NearestNeighbors::clear') for c in f.walk()):
+            continue
+        conts = {}
+        for x in f.walk():
+            if x['k'] == 'DeclStmt':
+                for d in x.get('decls', []):
+                    ty = d.get('ty') or ''
+                    if re.match(r'std::(queue|list|vector|deque|stack)<', ty) and 'Motion *' in ty and 'shared_ptr' not in ty:
+                        conts[d['did']] = (d['name'], x)
+        if not conts:
+            continue
+
+        def on(c, did):
+            """is this member call made on container `did`?"""
+            if not c['ch']:
+                return False
+            r = f.strip(c['ch'][0])
+            if r is not None and r['k'] == 'UnaryOperator' and r.get('op') in ('*', '&'):
+                r = f.strip(r['ch'][0])
+            return r is not None and r['k'] == 'DeclRefExpr' and r.get('did') == did
+        for did, (name, decl) in sorted(conts.items()):
+            pushes = [c for c in f.walk() if c['k'] == 'CXXMemberCallExpr' and (c.get('callee') or '').split('::')[-1] in PUSHES and on(c, did)]
+            # a push of an element that the same block also adds to a nearest-neighbour structure is a view, not a hand-over
+            def is_view(c):
+                a = args(f, c)
+                if not a:
+                    return False
+                efp = f.fp(a[0])
+                for anc in f.ancestors(c['id']):
+                    if anc['k'] == 'CompoundStmt':
+                        return any((y.get('callee') or '').endswith('NearestNeighbors::add') and args(f, y) and f.fp(args(f, y)[0]) == efp
+                                   for y in f.walk(anc['id']))
+                return False
+            pushes = [c for c in pushes if not is_view(c)]
+            if not pushes:
+                continue
+            last_push = max(f.line(c) for c in pushes)
+            drains = []
+            for lp in [x for x in f.walk() if x['k'] in ('WhileStmt', 'DoStmt', 'ForStmt', 'CXXForRangeStmt')]:
+                body = f.nodes.get(lp.get('body'))
+                if body is None:
+                    continue
+                top = body['ch'] if body['k'] == 'CompoundStmt' else [body['id']]
+                kind = None
+                if lp['k'] in ('WhileStmt', 'DoStmt') and lp.get('cond') and \
+                        any((c.get('callee') or '').endswith('::empty') and on(c, did) for c in f.walk(lp['cond'])):
+                    # pops at the top level of the body (possibly inside a nested loop with the same emptiness condition)
+                    def pops_top(stmts):
+                        for s_ in stmts:
+                            sn = f.strip(s_) or f.nodes[s_]
+                            if sn['k'] == 'CXXMemberCallExpr' and (sn.get('callee') or '').split('::')[-1] in POPS and on(sn, did):
+                                return True
+                            if sn['k'] in ('WhileStmt', 'DoStmt') and sn.get('cond') and \
+                                    any((c.get('callee') or '').endswith('::empty') and on(c, did) for c in f.walk(sn['cond'])):
+                                b2 = f.nodes.get(sn.get('body'))
+                                if b2 is not None and pops_top(b2['ch'] if b2['k'] == 'CompoundStmt' else [b2['id']]):
+                                    return True
+                        return False
+                    if pops_top(top):
+                        kind = 'emptied'
+                elif lp['k'] == 'CXXForRangeStmt':
+                    rng = f.strip(lp.get('range')) if lp.get('range') else None
+                    if rng is not None and rng['k'] == 'DeclRefExpr' and rng.get('did') == did:
+                        handed = False
+                        for s_ in top:
+                            sn = f.strip(s_) or f.nodes[s_]
+                            cal = (sn.get('callee') or '')
+                            if sn['k'] == 'CXXDeleteExpr' or cal.endswith(('NearestNeighbors::add', '::freeState', '::freeMotion')) or \
+                                    cal.split('::')[-1] in PUSHES:
+                                handed = True
+                        if handed:
+                            kind = 'handed on'
+                if kind:
+                    drains.append((lp, kind))
+            # handing the whole container to one of the planner's own functions after the last push is a drain as well
+            for c in f.walk():
+                if c.get('callee') and c.get('crepo') and f.line(c) >= last_push and \
+                        any(on({'ch': [a_]}, did) for a_ in args(f, c)):
+                    drains.append((c, 'passed to ' + c['callee'].split('::')[-1]))
+            ok = any(lp['k'] not in ('WhileStmt', 'DoStmt', 'ForStmt', 'CXXForRangeStmt') or f.d['line'] <= f.line(lp) and (f.nodes.get(lp.get('body')) is not None) and
+                     max(f.line(x) for x in f.walk(lp['id'])) >= last_push or f.line(lp) > last_push for lp, kind in drains)
+            n += 1
+            rep.add('R03j', f.name, 'work-list:' + name, ok, f.where(decl),
+                    'drained (%s)' % ', '.join(sorted(set(k for _, k in drains))) if ok else
+                    'nodes pushed to `%s` (last at line %d) are never drained by an emptying loop or an unconditional hand-over traversal: '
+                    'those left in it are neither in the tree index nor freed' % (name, last_push))
+    rep.require_count('R03j', 'work-lists in pruning functions', n, 4)
+
+
 def run(rep):
     units = P.geometric_units() + P.control_units() + P.multilevel_units() + P.base_units()
     F = facts.load_units(units)
@@ -485,3 +590,11 @@ def run(rep):
     r03g(rep, F)
     r03h(rep, F)
     r03i(rep, F)
+    r03j(rep, F, planner_fns)
+    # the RRTConnect side-flag invariant decides which branch is reported as the approximate solution of an interrupted solve
+    from rules import c01
+    c01.r01k(rep, F)
+    rep.rule_text['R03k'] = rep.rule_text.pop('R01k')
+    for o in rep.obl:
+        if o['rule'] == 'R01k':
+            o['rule'] = 'R03k'
